@@ -56,8 +56,10 @@ def classify(rc, out):
     return "harness"
 
 
-def run_one(scn_seed, miri_seed, threads_mask=None, max_ops=None):
+def run_one(scn_seed, miri_seed, threads_mask=None, max_ops=None, population=None):
     args = ["cargo", "+nightly", "miri", "run", "--offline", "-q", "--", str(scn_seed)]
+    if population:
+        args += ["--population", str(population)]
     if threads_mask is not None:
         args += ["--threads-mask", str(threads_mask)]
     if max_ops is not None:
@@ -79,13 +81,15 @@ def run_one(scn_seed, miri_seed, threads_mask=None, max_ops=None):
     if kind not in ("clean",):
         lines = [l for l in out.splitlines() if ("error" in l or "MISMATCH" in l or "panicked" in l or "Data race" in l or "deadlock" in l.lower())]
         detail = " | ".join(lines[:3])[:600]
-    return dict(scn_seed=scn_seed, miri_seed=miri_seed, threads_mask=threads_mask, max_ops=max_ops, kind=kind, info=info,
+    return dict(scn_seed=scn_seed, miri_seed=miri_seed, threads_mask=threads_mask, max_ops=max_ops, population=population, kind=kind, info=info,
                 detail=detail, wall_s=time.time() - t0, tail=out[-1500:] if kind == "harness" else "")
 
 
-def list_plan(scn_seed, threads_mask=None, max_ops=None):
+def list_plan(scn_seed, threads_mask=None, max_ops=None, population=None):
     # native listing (no interpretation needed): the plan is a pure function of the scenario seed
     args = ["cargo", "+nightly", "miri", "run", "--offline", "-q", "--", str(scn_seed), "--list"]
+    if population:
+        args += ["--population", str(population)]
     if threads_mask is not None:
         args += ["--threads-mask", str(threads_mask)]
     if max_ops is not None:
@@ -99,6 +103,19 @@ def minimise(fail, jobs):
     seeds are tried per candidate; a candidate is accepted only if the same kind of failure shows."""
     kind = fail["kind"]
     best = dict(fail)
+    if fail.get("population"):
+        # population profile: one round of smaller populations, run side by side (an execution costs
+        # about one second per thread)
+        n = fail["population"]
+        cands = sorted(set(c for c in (n // 2, (3 * n) // 4, n - 1) if 2 <= c < n))
+        with ThreadPoolExecutor(max_workers=jobs) as ex:
+            res = list(ex.map(lambda c: run_one(fail["scn_seed"], fail["miri_seed"], None, None, c), cands))
+        for r in res:
+            if r["kind"] == kind:
+                best = r
+                break
+        best["shrink_evals"] = len(cands)
+        return best
     nthreads = (fail.get("info") or {}).get("threads") or 4
     mask = fail["threads_mask"] if fail["threads_mask"] is not None else (1 << nthreads) - 1
     max_ops = fail["max_ops"]
@@ -140,7 +157,32 @@ def minimise(fail, jobs):
     return best
 
 
-def run_engine(seed, executions, jobs, replay_dir, seeds_per_scenario=4):
+def population_pairs(seed, executions):
+    pops = [130, 33] if executions <= 256 else [257, 131, 130, 129, 129, 66, 65, 34, 33, 18, 17]
+    return [((seed * 31 + 977 * j) % (1 << 48), (seed + 7 * j) % (1 << 31), n) for j, n in enumerate(pops)]
+
+
+_POOL = None
+
+
+def start_population(seed, executions):
+    """Start the population executions in the background; returns a future of their results."""
+    global _POOL
+    ok, out = prepare()
+    if not ok:
+        return None
+    pp = population_pairs(seed, executions)
+    _POOL = ThreadPoolExecutor(max_workers=len(pp))
+    futs = [_POOL.submit(run_one, p[0], p[1], None, None, p[2]) for p in pp]
+
+    class _All:
+        def result(self):
+            return [f.result() for f in futs]
+
+    return _All()
+
+
+def run_engine(seed, executions, jobs, replay_dir, seeds_per_scenario=4, population_future=None):
     t0 = time.time()
     ok, out = prepare()
     if not ok:
@@ -151,15 +193,27 @@ def run_engine(seed, executions, jobs, replay_dir, seeds_per_scenario=4):
         scn = (seed * 1000003 + i * 7919) % (1 << 48)
         for k in range(seeds_per_scenario):
             pairs.append((scn, (seed + 31 * i + k) % (1 << 31)))
-    pairs = pairs[:executions]
+    pairs = [(a, b, None) for a, b in pairs[:executions]]
+    # population profile (many simultaneously alive caller threads, just past a power of two):
+    # the longest executions (about a second per thread), so the driver starts them ahead of
+    # everything else (`start_population`) and they are only collected here
+    pop_pairs = population_pairs(seed, executions)
+    pops = [p[2] for p in pop_pairs]
     with ThreadPoolExecutor(max_workers=jobs) as ex:
-        results = list(ex.map(lambda p: run_one(p[0], p[1]), pairs))
+        results = list(ex.map(lambda p: run_one(p[0], p[1], None, None, p[2]), pairs))
+    if population_future is not None:
+        pop_results = population_future.result()
+    else:
+        with ThreadPoolExecutor(max_workers=jobs) as ex:
+            pop_results = list(ex.map(lambda p: run_one(p[0], p[1], None, None, p[2]), pop_pairs))
+    pairs = pop_pairs + pairs
+    results = pop_results + results
     # determinism sample: first few pairs again, must give the identical event order
-    det_pairs = pairs[: max(2, min(8, len(pairs) // 8))]
+    det_pairs = pairs[len(pop_pairs): len(pop_pairs) + max(2, min(8, len(pairs) // 8))]
     with ThreadPoolExecutor(max_workers=jobs) as ex:
         again = list(ex.map(lambda p: run_one(p[0], p[1]), det_pairs))
     det_mismatch = 0
-    for a, b in zip(results, again):
+    for a, b in zip(results[len(pop_pairs):], again):
         if a["kind"] != b["kind"] or (a["info"] or {}).get("order") != (b["info"] or {}).get("order"):
             det_mismatch += 1
     kinds = {}
@@ -214,9 +268,10 @@ def run_engine(seed, executions, jobs, replay_dir, seeds_per_scenario=4):
             continue
         m = minimise(r, jobs)
         path = os.path.join(replay_dir, "C13-M-%d-%d.json" % (m["scn_seed"], m["miri_seed"]))
-        confirm = run_one(m["scn_seed"], m["miri_seed"], m["threads_mask"], m["max_ops"])
+        confirm = run_one(m["scn_seed"], m["miri_seed"], m["threads_mask"], m["max_ops"], m.get("population"))
         rep = dict(property="C13", engine="M", scenario_seed=m["scn_seed"], miri_seed=m["miri_seed"], threads_mask=m["threads_mask"],
-                   max_ops=m["max_ops"], miriflags=BASE_FLAGS, plan=list_plan(m["scn_seed"], m["threads_mask"], m["max_ops"]),
+                   max_ops=m["max_ops"], population=m.get("population"), miriflags=BASE_FLAGS,
+                   plan=list_plan(m["scn_seed"], m["threads_mask"], m["max_ops"], m.get("population"))[:40],
                    violation=dict(kind=m["kind"], detail=m["detail"]), minimised=True, shrink_evals=m.get("shrink_evals", 0))
         with open(path, "w") as f:
             json.dump(rep, f, indent=1)
@@ -234,6 +289,7 @@ def run_engine(seed, executions, jobs, replay_dir, seeds_per_scenario=4):
         "executions": len(results),
         "executions_per_hour": int(len(results) / run_wall * 3600),
         "scenario_seeds": n_scn,
+        "population_profile_executions(threads alive at once)": {str(n): 1 for n in set(pops)} if len(set(pops)) == len(pops) else {str(n): pops.count(n) for n in sorted(set(pops))},
         "miri_seeds_per_scenario": seeds_per_scenario,
         "outcomes": kinds,
         "simulated_time": {"note": "no clock in the system; logical steps", "operations_executed": total_ops},
@@ -244,6 +300,7 @@ def run_engine(seed, executions, jobs, replay_dir, seeds_per_scenario=4):
             "weak_memory_emulation(store buffers)": len(results),
             "spurious_compare_exchange_weak_failure": len(results),
             "racing_first_touch_of_lazy_tables": len(results),
+            "caller_thread_population_just_past_a_power_of_two(17..257 threads alive, none ordered by happens-before)": len(pop_pairs),
         },
         "determinism": {"pairs_run_twice": len(det_pairs), "mismatches": det_mismatch},
         "reference_value_groups(same scenario, different executions)": ref_groups,
@@ -263,7 +320,7 @@ def replay(path):
         print("HARNESS-ERROR Miri build failed")
         print(out[-2000:])
         return 2
-    r = run_one(rep["scenario_seed"], rep["miri_seed"], rep.get("threads_mask"), rep.get("max_ops"))
+    r = run_one(rep["scenario_seed"], rep["miri_seed"], rep.get("threads_mask"), rep.get("max_ops"), rep.get("population"))
     if rep["violation"]["kind"] == "reference_differs_between_executions" and r["kind"] == "clean":
         r2 = run_one(rep["scenario_seed"], rep["other_miri_seed"])
         if r2["kind"] == "clean" and r["info"]["refhash"] != r2["info"]["refhash"]:
